@@ -2,8 +2,8 @@
    The full statements are `seq_refinement_stmt` (Get returns the value of the
    latest successful Set across any interleaving with log operations and clean
    reopens) -- PROVED, see the sequential part at the end of this file -- and
-   `crash_refinement_stmt` (across crashes) of Wal/Hist.v, whose proof is in
-   progress (the fragments below concern that half). *)
+   `crash_refinement_stmt` (across crashes) of Wal/Hist.v -- PROVED as well, see
+   C08_crash_refines at the end.  bbolt's own atomicity/durability is trusted. *)
 From RW Require Import Base.Bytes Base.BytesFacts Fmt.Codec Fmt.Frame Wal.Model Wal.Spec Wal.Hist Wal.BasicFacts
   Wal.SeqFactsMain Wal.SeqFactsStable.
 Open Scope N_scope.
@@ -11,26 +11,26 @@ Open Scope N_scope.
 Definition C08_full_statement : Prop := seq_refinement_stmt /\ crash_refinement_stmt.
 
 (* proved fragments: the key/value map *)
-Theorem C08_get_after_set_partial :
+Theorem C08_kv_get_after_set :
   forall k v m, kv_keys_unique m -> kv_get k (kv_set k v m) = v.
 Proof. exact kv_get_set_same. Qed.
-Print Assumptions C08_get_after_set_partial.
+Print Assumptions C08_kv_get_after_set.
 
-Theorem C08_set_leaves_other_keys_partial :
+Theorem C08_kv_set_leaves_other_keys :
   forall k k2 v m, beq_bytes k2 k = false -> kv_get k2 (kv_set k v m) = kv_get k2 m.
 Proof. exact kv_get_set_other. Qed.
-Print Assumptions C08_set_leaves_other_keys_partial.
+Print Assumptions C08_kv_set_leaves_other_keys.
 
 (* SetUint64 / GetUint64: little endian round trip *)
-Theorem C08_uint64_roundtrip_partial : forall v, v < 18446744073709551616 -> rd64 (le64 v) = v.
+Theorem C08_le64_roundtrip : forall v, v < 18446744073709551616 -> rd64 (le64 v) = v.
 Proof. exact rd64_le64. Qed.
-Print Assumptions C08_uint64_roundtrip_partial.
+Print Assumptions C08_le64_roundtrip.
 
 (* a power loss never changes the stable map (it is a durable atomic cell) *)
-Theorem C08_crash_keeps_stable_partial :
+Theorem C08_crash_keeps_stable :
   forall c d, dk_meta (crash_disk c d) = dk_meta d /\ dk_stable (crash_disk c d) = dk_stable d.
 Proof. exact crash_disk_meta. Qed.
-Print Assumptions C08_crash_keeps_stable_partial.
+Print Assumptions C08_crash_keeps_stable.
 
 (* ======================================================================== *)
 (* BEGIN sequential part (branch refine): proved from the sequential refinement
@@ -109,3 +109,12 @@ Example C08_ex_uint64 :
 Proof. vm_compute. reflexivity. Qed.
 (* END sequential part *)
 (* ======================================================================== *)
+
+(* ---- across crashes: the stable map is part of the state compared by the master
+   crash theorem (hs_acked / hs_may carry sp_kv): after any history with power losses
+   at any I/O boundary, every acknowledged Set is present and a Set in flight is
+   applied or not (see Props/C01.v for the statement's reading) ---- *)
+From RW Require Import Wal.CrashCalls10.
+Theorem C08_crash_refines : crash_refinement_stmt.
+Proof. exact crash_refinement. Qed.
+Print Assumptions C08_crash_refines.
